@@ -966,3 +966,61 @@ Proof.
   split; [exact A|]. split; [exact B|]. split; [exact C|]. split; [exact D|]. repeat split.
 Qed.
 Print Assumptions C07_core_example.
+
+(** ** GCTHREAD: the background-collector protocol of the index-based manager (Mgr/GcThread.v,
+    notes/GCTHREAD.md): interleaving model of gc_signal / gc_state / gc_ongoing / the manager lock *)
+From Coq Require Import List ZArith NArith.
+From OxiVerif Require Mgr.Alloc Mgr.GcThread Mgr.GcThreadProofs Mgr.GcThreadThms Mgr.GcThreadExamples.
+
+(* the states the theorems quantify over *)
+Theorem C07_gcthread_reachable_def : forall c s,
+  GcThreadProofs.reachable c s <-> exists n sched, GcThread.run c (GcThread.init c n) sched = Some s.
+Proof. exact GcThreadThms.reachable_def. Qed.
+Print Assumptions C07_gcthread_reachable_def.
+
+(* (a) in every reachable state at most one sweep is in progress, over all threads; exactly when `gc_ongoing` is set *)
+Theorem C07_gcthread_at_most_one_sweep : forall c s, GcThreadProofs.reachable c s ->
+  GcThread.sweeps s <= 1 /\ (GcThread.sweeps s = 1 <-> GcThread.g_ongoing s = true).
+Proof. exact GcThreadThms.at_most_one_sweep. Qed.
+Print Assumptions C07_gcthread_at_most_one_sweep.
+
+(* (a) while the collector thread sweeps no application thread is inside a sweep *)
+Theorem C07_gcthread_coll_sweep_excludes_app : forall c s t p, GcThreadProofs.reachable c s -> GcThread.g_cpc s = GcThread.CSweep ->
+  nth_error (GcThread.g_app s) t = Some p -> GcThread.a_sweeping p = false.
+Proof. exact GcThreadThms.coll_sweep_excludes_app. Qed.
+Print Assumptions C07_gcthread_coll_sweep_excludes_app.
+
+(* (a) two application threads are never both inside a sweep *)
+Theorem C07_gcthread_app_sweeps_exclusive : forall c s t1 t2 p1 p2, GcThreadProofs.reachable c s -> t1 <> t2 ->
+  nth_error (GcThread.g_app s) t1 = Some p1 -> nth_error (GcThread.g_app s) t2 = Some p2 ->
+  GcThread.a_sweeping p1 = true -> GcThread.a_sweeping p2 = false.
+Proof. exact GcThreadThms.app_sweeps_exclusive. Qed.
+Print Assumptions C07_gcthread_app_sweeps_exclusive.
+
+(* (b) the sweeping collector holds the try-lock and a read lock: no writer exists (no reordering, no exclusive-lock gc) and `gc_state` is `Triggered` *)
+Theorem C07_gcthread_coll_sweep_holds : forall c s, GcThreadProofs.reachable c s -> GcThread.g_cpc s = GcThread.CSweep ->
+  GcThread.g_ongoing s = true /\ 1 <= GcThread.g_readers s /\ GcThread.g_writer s = false /\ GcThread.g_gc s = Alloc.GTriggered /\
+  (forall t p, nth_error (GcThread.g_app s) t = Some p -> GcThread.a_holds_x p = false).
+Proof. exact GcThreadThms.coll_sweep_holds. Qed.
+Print Assumptions C07_gcthread_coll_sweep_holds.
+
+(* (b) an application thread sweeping under the read lock *)
+Theorem C07_gcthread_app_sweep_shared_holds : forall c s t, GcThreadProofs.reachable c s -> nth_error (GcThread.g_app s) t = Some GcThread.PSweepS ->
+  GcThread.g_ongoing s = true /\ 1 <= GcThread.g_readers s /\ GcThread.g_writer s = false /\ GcThread.g_cpc s <> GcThread.CSweep.
+Proof. exact GcThreadThms.app_sweep_shared_holds. Qed.
+Print Assumptions C07_gcthread_app_sweep_shared_holds.
+
+(* (b) an application thread sweeping under the write lock: the collector is not inside the manager *)
+Theorem C07_gcthread_app_sweep_excl_holds : forall c s t, GcThreadProofs.reachable c s -> nth_error (GcThread.g_app s) t = Some GcThread.PSweepX ->
+  GcThread.g_ongoing s = true /\ GcThread.g_writer s = true /\ GcThread.g_readers s = 0 /\ GcThread.c_holds (GcThread.g_cpc s) = false.
+Proof. exact GcThreadThms.app_sweep_excl_holds. Qed.
+Print Assumptions C07_gcthread_app_sweep_excl_holds.
+
+(* non-vacuity: every action once; thread 0 sweeps while thread 1 and the collector fail to get `gc_ongoing`; orderly termination *)
+Theorem C07_gcthread_all :
+  GcThread.run GcThreadExamples.gx_cfg (GcThread.init GcThreadExamples.gx_cfg 1) (firstn 10 GcThreadExamples.gx_sched_all) = Some GcThreadExamples.gx_all_mid /\
+  GcThread.run GcThreadExamples.gx_cfg (GcThread.init GcThreadExamples.gx_cfg 1) GcThreadExamples.gx_sched_all = Some GcThreadExamples.gx_all_end /\
+  GcThreadProofs.reachable GcThreadExamples.gx_cfg GcThreadExamples.gx_all_mid /\ GcThreadProofs.reachable GcThreadExamples.gx_cfg GcThreadExamples.gx_all_end /\
+  GcThread.sweeps GcThreadExamples.gx_all_mid = 1 /\ GcThread.quit_seen GcThreadExamples.gx_all_end = true.
+Proof. exact GcThreadExamples.gx_all. Qed.
+Print Assumptions C07_gcthread_all.
